@@ -1019,6 +1019,15 @@ def hist_judge(r, NP, MAXR, NSTEPS, FIRST, CRASH, shrink=False):
             if run_ > MAXR:
                 bad.append(('retry-budget', {'time': tm, 'consecutive_restarts': run_, 'max_restarts': MAXR}))
                 break
+    # the restart counter a step carries (the one every statistics record is keyed with) is the number of times THAT step -- identified by its start
+    # time; the step size is fixed here -- was restarted in a row before the current attempt
+    for tm in (per_time if not shrink else []):
+        run_ = 0
+        for (slot, t_, dt, u0, ue, rs, nr) in [l for l in log if round(l[1], 9) == tm]:
+            if nr != run_:
+                bad.append(('restart-counter', {'time': tm, 'slot': slot, 'counter': nr, 'restarts_of_this_step_in_a_row': run_}))
+                break
+            run_ = run_ + 1 if rs else 0
     if r['status'] == 'crash':
         # the error is legitimate only if the last block's first step had used up its budget
         if not CRASH:
